@@ -315,6 +315,9 @@ func main() {
 		scs = append(scs, prefixScenario(pcfg{depth: depth, db: evid.Pick(run, 1, 2), seed: seed}))
 	}
 	scs = append(scs, prefixScenario(pcfg{depth: depth, db: evid.Pick(run, 1, 2), seed: 1, restart: true}))
+	for _, both := range []bool{false, true} {
+		scs = append(scs, swarmLossScenario(wcfg{k: evid.Pick(run, 8, 12), db: evid.Pick(run, 2, 3), both: both}))
+	}
 	explore.Main(run, scs, evid.Pick(run, 150*time.Second, 20*time.Minute))
 	run.Set("prefix_depth", depth)
 	run.Assume("the fair suffix delivers every in-flight packet promptly and in order and fires timers only when nothing is in flight; handlers run atomically")
